@@ -194,6 +194,9 @@ impl Property for C16 {
     fn enumerate(_tier: Tier, worker: usize, workers: usize) -> Box<dyn Iterator<Item = Spec>> {
         Box::new(EXPIRY_EDGE.iter().enumerate().filter(move |(i, _)| i % workers == worker).map(|(_, t)| Spec::Expiry { text: t.to_string() }))
     }
+    fn concurrent() -> bool {
+        true
+    }
     fn check(spec: &Spec, _env: &mut Env) -> Outcome {
         let mut o = Outcome::new();
         match spec {
